@@ -3,27 +3,36 @@
      op 1  NodeMarks history:   18 1 nops { code id obs }*
              code 0 Mark(id) 1 Unmark(id) 2 Test(id) 3 Next(id);
              obs: Mark/Unmark 0 (returned) or 2 (panicked: the history stops there),
-                  Test 0/1, Next the returned int.
-     op 2  traversals:          18 2 <graph> nroots { root status <pre> <post> <revpost> <euler> <enterOnly> <exitOnly> }* pure
+                  Test 0/1, Next the returned int.  nops = 0 (nothing observed) is MALFORMED.
+     op 2  traversals:          18 2 <graph> nroots { root status <pre> <post> <revpost> <revarg> <euler> <enterOnly> <exitOnly> }* pure <graph after>
              <graph> = n { deg target* }^n ; lists are count-prefixed; euler events are 2*node (Enter)
              or 2*node+1 (Exit); status 0 = all calls returned, 2 = a call panicked (lists empty);
-             revpost = Reverse(PostOrder(g, root)); enterOnly / exitOnly = Euler with one nil callback;
-             pure = 1 iff the adjacency lists are unchanged after all calls.
-     op 3  SCC:                 18 3 <graph> flags status ncomps {<Subnodes(c)>}* hascof <SubnodeComponent(0..n-1)> nouts {<Out(c)>}* pure
-             flags: 1 SCCSubnodeComponent, 2 SCCEdges; hascof = 1 iff flags != 0 (otherwise the list is empty);
+             revpost = the slice returned by Reverse(xs), xs = PostOrder(g, root); revarg = xs after that call (Reverse
+             works in place); enterOnly / exitOnly = Euler with one nil callback; nroots = 0 is MALFORMED;
+             pure = 1 iff the harness found the adjacency lists unchanged after all calls; <graph after> = the
+             argument graph as it is after all calls (compared here with <graph>; the same for ops 3-8 and 10).
+     op 3  SCC:                 18 3 <graph> flags status ncomps {<Subnodes(c)>}* hascof <SubnodeComponent(0..n-1)> nouts {<Out(c)>}* pure <graph after>
+             flags: 1 SCCSubnodeComponent, 2 SCCEdges; ncomps = SCCGraph.NumNodes(); hascof = 1 iff flags != 0
+             (otherwise the list is empty and hascof = 0 iff SubnodeComponent(0) panicked as documented, 2 if it returned);
              Out(c) is listed for every component (all empty without SCCEdges).
-     op 4  MakeBiGraph:         18 4 <graph> status n {<In(j)>}^n outsame idem pure
-             outsame = 1 iff NumNodes/Out of the result equal the argument's; idem = 1 iff MakeBiGraph(b) == b.
-     op 5  Equal:               18 5 <g1> <g2> status result pure
-     op 6  SimplifyMulti:       18 6 <graph> weighted n {<weights(i)>}^n status <Out graph> n' {<OutWeight(i,.)>}^n' pure
+     op 4  MakeBiGraph:         18 4 <graph> status n {<In(j)>}^n <Out graph of the result> idem pure <graph after>
+             <Out graph of the result> = NumNodes() and Out(0..NumNodes()-1) of the result b; idem = 1 iff MakeBiGraph(b) == b.
+     op 5  Equal:               18 5 <g1> <g2> status result result21 pure <g1 after> <g2 after>
+             result = Equal(g1, g2), result21 = Equal(g2, g1) (0/1).
+     op 6  SimplifyMulti:       18 6 <graph> weighted n {<weights(i)>}^n status <Out graph> n' {<OutWeight(i,.)>}^n' pure <graph after>
              weights are float64 bit patterns; weighted = 0: a plain graph (weight lists empty, unit weights).
-     op 7  SubgraphKeep:        18 7 <graph> <nodes> <edges flat: node edge ...> status n' { old <Out(i)> <EdgeMap(i,.) flat> }^n' pure
-     op 8  SubgraphRemove:      18 8 <graph> <nodes> <edges flat> status n' { old <Out(i)> <EdgeMap(i,.) flat> }^n' pure
+     op 7  SubgraphKeep:        18 7 <graph> <nodes> <edges flat: node edge ...> status n' { old <Out(i)> <EdgeMap(i,.) flat> }^n' pure <graph after> <nodes after> <edges flat after>
+     op 8  SubgraphRemove:      18 8 <graph> <nodes> <edges flat> status n' { old <Out(i)> <EdgeMap(i,.) flat> }^n' pure <graph after> <nodes after> <edges flat after>
              old = NodeMap(identity)(i); EdgeMap with the pairing map, flattened node edge node edge ...
      op 9  DotString:           18 9 <bytes> status <result bytes>
-     op 10 Dot.Sprint:          18 10 <graph> <name> haslabel n {<label(i)>}^n hasnattrs n {<attrs(i)>}^n haseattrs n { deg {<attrs(i,j)>}^deg }^n status <output bytes> pure
+     op 10 Dot.Sprint:          18 10 <graph> <name> haslabel n {<label(i)>}^n hasnattrs n {<attrs(i)>}^n haseattrs n { deg {<attrs(i,j)>}^deg }^n status <output bytes> pure <graph after>
              <attrs> = count { <name bytes> kind payload }*; kind 0 string <bytes>, 1 int z, 2 DotLiteral <bytes>,
              3 a bool (formatAttrs panics), 4 uint z.  The tables are empty when the has-flag is 0 (nil func).
+     op 11 history on ONE graph object:  18 11 k { len op <the line of operation op without its leading "18 op"> }^k
+             the k >= 1 calls (ops 2-8 and 10) are made one after the other on the same graph object (for a BiGraph
+             object: the result of one MakeBiGraph call); each step is judged by the check of its operation, which
+             includes "the argument after the call equals the argument before the call", and the graph printed before
+             every step must equal the graph printed before the first step.
    Verdict tag = 0 for a trivial case, else 256*op + branch bits (listed per op). *)
 From Coq Require Import FMapPositive.
 From MM Require Import Base.Num Base.GCGraph Base.GCReach Model.Marks Spec.Dfs Model.Order Spec.Scc Model.Scc Model.Graph Model.Subgraph Model.Dot.
@@ -55,18 +64,29 @@ Definition mop_bits (m : marks) (o : mop) (r : Z) : Z :=
            if (r / 32 =? i2 / 32) then 32 else 64
   end.
 
+(* m_step, computed without building the unary word index when the id lies beyond the storage
+   (Test/Next are run for EVERY int, e.g. math.MaxInt): equal to m_step for all arguments,
+   Proofs/C18MarksBig.v m_step_c_eq *)
+Definition m_step_c (m : marks) (o : mop) : marks * Z :=
+  match o with
+  | MTest i => if Z.of_nat (length m) <=? i / 32 then (m, 0) else m_step m o
+  | MNext i => if Z.of_nat (length m) <=? (i + 1) / 32 then (m, -1) else m_step m o
+  | _ => m_step m o
+  end.
+
 Fixpoint marks_cmp (m : marks) (ops : list (mop * Z)) (idx bits : Z) : Z * option (Z * Z) :=
   match ops with
   | [] => (bits, None)
   | (o, obs) :: rest =>
-      let '(m', r) := m_step m o in
+      let '(m', r) := m_step_c m o in
       let bits' := Z.lor bits (mop_bits m o r) in
       if r =? obs then marks_cmp m' rest (idx + 1) bits' else (bits', Some (idx, r))
   end.
 
 Definition check_marks : parser (list Z) :=
   do ops <- plist_any p_mop;
-  pend (match marks_cmp m_new ops 0 0 with
+  pend (if (length ops =? 0)%nat then verdict V_MALFORMED 0 (-1) [1] else
+        match marks_cmp m_new ops 0 0 with
         | (bits, None) => verdict V_OK (mk_tag 1 bits) (-1) []
         | (bits, Some (idx, r)) => verdict V_MISMATCH (mk_tag 1 (Z.lor bits 1)) idx [1; r]
         end).
@@ -99,11 +119,19 @@ Definition first_false (l : list bool) : option Z :=
   (fix go (l : list bool) (i : Z) := match l with [] => None | true :: t => go t (i + 1) | false :: _ => Some i end) l 0.
 
 (* ------------------------------------------------------------------ op 2: traversals *)
-Record trav_obs := mkTrav { t_root : Z; t_status : Z; t_pre : list Z; t_post : list Z; t_rev : list Z;
+Record trav_obs := mkTrav { t_root : Z; t_status : Z; t_pre : list Z; t_post : list Z; t_rev : list Z; t_rva : list Z;
                             t_eul : list Z; t_ent : list Z; t_ext : list Z }.
 Definition p_trav : parser trav_obs :=
-  do r <- pZ; do st <- pZ; do a <- p_Zs; do b <- p_Zs; do c <- p_Zs; do d <- p_Zs; do e <- p_Zs; do f <- p_Zs;
-  pret (mkTrav r st a b c d e f).
+  do r <- pZ; do st <- pZ; do a <- p_Zs; do b <- p_Zs; do c <- p_Zs; do c2 <- p_Zs; do d <- p_Zs; do e <- p_Zs; do f <- p_Zs;
+  pret (mkTrav r st a b c c2 d e f).
+
+(* the argument graph as printed after the calls equals the graph printed before them *)
+Fixpoint graph_eqb (a b : graph) : bool :=
+  match a, b with
+  | [], [] => true
+  | x :: a', y :: b' => Ns_eqb x y && graph_eqb a' b'
+  | _, _ => false
+  end.
 
 Definition oZs (o : option (list N)) : option (list Z) := option_map ZsN o.
 Definition oeq (expected : option (list Z)) (obs : list Z) : bool :=
@@ -124,7 +152,9 @@ Definition trav_bits (out : N -> list N) (n : N) (root : N) (pre : list N) : Z :
 
 Definition trav_one (out : N -> list N) (n : N) (fuel : nat) (o : trav_obs) : Z * option Z :=
   if (t_root o <? 0) || (Z.of_N n <=? t_root o) then
-    (32, if t_status o =? 2 then None else Some 0)
+    (* the call panics: status 2 and nothing else was observed (all seven lists empty) *)
+    (32, if (t_status o =? 2) && (length (t_pre o ++ t_post o ++ t_rev o ++ t_rva o ++ t_eul o ++ t_ent o ++ t_ext o) =? 0)%nat
+         then None else Some 0)
   else
     let r := Z.to_N (t_root o) in
     (* preorder / postorder are, by definition, the node projections of run_visit true false /
@@ -140,6 +170,7 @@ Definition trav_one (out : N -> list N) (n : N) (fuel : nat) (o : trav_obs) : Z 
                    oeq (oZs pre) (t_pre o);
                    oeq (oZs post) (t_post o);
                    oeq (oZs (option_map reverse post)) (t_rev o);
+                   oeq (oZs (option_map reverse post)) (t_rva o);
                    oeq (option_map (map ev_code) eul) (t_eul o);
                    oeq (option_map (map ev_code) ent) (t_ent o);
                    oeq (option_map (map ev_code) ext) (t_ext o) ]).
@@ -156,14 +187,14 @@ Fixpoint trav_all (out : N -> list N) (n : N) (fuel : nat) (l : list trav_obs) (
   end.
 
 Definition check_trav : parser (list Z) :=
-  do g <- p_graph; do obs <- plist_any p_trav; do pure <- pZ;
-  pend (if negb (g_wfb g) then verdict V_MALFORMED 0 (-1) [2]
+  do g <- p_graph; do obs <- plist_any p_trav; do pure <- pZ; do g' <- p_graph;
+  pend (if negb (g_wfb g) || (length obs =? 0)%nat then verdict V_MALFORMED 0 (-1) [2]
         else
           let out := gm_out (gm_build g) in
           match trav_all out (g_n g) (S (length g)) obs 0 0 with
           | (bits, Some (idx, k)) => verdict V_MISMATCH (mk_tag 2 (Z.lor bits 128)) idx [2; k]
           | (bits, None) =>
-              if pure =? 1 then verdict V_OK (mk_tag 2 bits) (-1) []
+              if (pure =? 1) && graph_eqb g g' then verdict V_OK (mk_tag 2 bits) (-1) []
               else verdict V_MISMATCH (mk_tag 2 (Z.lor bits 128)) (-1) [2; 99]
           end).
 
@@ -200,7 +231,7 @@ Definition scc_bits (g : graph) (flags : Z) (comps outs : list (list Z)) : Z :=
 
 Definition check_scc : parser (list Z) :=
   do g <- p_graph; do flags <- pZ; do status <- pZ; do comps <- plist_any p_Zs; do hascof <- pZ; do cof <- p_Zs;
-  do outs <- plist_any p_Zs; do pure <- pZ;
+  do outs <- plist_any p_Zs; do pure <- pZ; do g' <- p_graph;
   pend (if negb (g_wfb g) then verdict V_MALFORMED 0 (-1) [3]
         else
           let bits := scc_bits g flags comps outs in
@@ -220,11 +251,12 @@ Definition check_scc : parser (list Z) :=
               | None => false
               end;
               (hascof =? (if flags =? 0 then 0 else 1));
+              negb (hascof =? 0) || (length cof =? 0)%nat;      (* no SubnodeComponent list without a flag *)
               (hascof =? 0) || ((length cof =? length g)%nat &&
                  match cm_build (g_n g) compsN 0%N (PositiveMap.empty N) with Some m => cof_match m cof 0%N | None => false end);
               (length outs =? length comps)%nat;
               if Z.testbit flags 1 then scc_edges_ok g compsN outsN else forallb (fun l => (length l =? 0)%nat) outs;
-              pure =? 1 ] in
+              pure =? 1; graph_eqb g g' ] in
           match w with
           | None => verdict V_OK (mk_tag 3 bits) (-1) []
           | Some k => verdict V_MISMATCH (mk_tag 3 (Z.lor bits 128)) k [3; k]
@@ -246,14 +278,14 @@ Definition bi_bits (g : graph) (ins : list (list Z)) : Z :=
          (if (1024 <=? length g)%nat then 16 else 0))).
 
 Definition check_bigraph : parser (list Z) :=
-  do g <- p_graph; do status <- pZ; do ins <- plist_any p_Zs; do outsame <- pZ; do idem <- pZ; do pure <- pZ;
+  do g <- p_graph; do status <- pZ; do ins <- plist_any p_Zs; do bout <- p_graph; do idem <- pZ; do pure <- pZ; do g' <- p_graph;
   pend (if negb (g_wfb g) then verdict V_MALFORMED 0 (-1) [4]
         else
           let preds := bi_build g in
           let bits := bi_bits g ins in
           let w := first_false [ status =? 0; (length ins =? length g)%nat;
                                  match lists_match (fun j => ZsN (gm_out preds j)) ins 0%N with None => true | Some _ => false end;
-                                 outsame =? 1; idem =? 1; pure =? 1 ] in
+                                 graph_eqb g bout; idem =? 1; pure =? 1; graph_eqb g g' ] in
           match w with
           | None => verdict V_OK (mk_tag 4 bits) (-1) []
           | Some k => verdict V_MISMATCH (mk_tag 4 (Z.lor bits 128)) k [4; k]
@@ -268,11 +300,12 @@ Definition eq_bits (g1 g2 : graph) (r : bool) : Z :=
   (Z.lor (if r && negb (Ns_eqb (concat g1) (concat g2)) then 8 else 0)
          (if r && Ns_eqb (concat g1) (concat g2) then 16 else 0))).
 Definition check_equal : parser (list Z) :=
-  do g1 <- p_graph; do g2 <- p_graph; do status <- pZ; do res <- pZ; do pure <- pZ;
+  do g1 <- p_graph; do g2 <- p_graph; do status <- pZ; do res <- pZ; do res21 <- pZ; do pure <- pZ; do g1' <- p_graph; do g2' <- p_graph;
   pend (if negb (g_wfb g1 && g_wfb g2) then verdict V_MALFORMED 0 (-1) [5]
         else
           let r := g_equal g1 g2 in
-          let w := first_false [ status =? 0; res =? (if r then 1 else 0); pure =? 1 ] in
+          let w := first_false [ status =? 0; res =? (if r then 1 else 0); res21 =? (if g_equal g2 g1 then 1 else 0); pure =? 1;
+                                 graph_eqb g1 g1'; graph_eqb g2 g2' ] in
           match w with
           | None => verdict V_OK (mk_tag 5 (eq_bits g1 g2 r)) (-1) []
           | Some k => verdict V_MISMATCH (mk_tag 5 (Z.lor (eq_bits g1 g2 r) 128)) k [5; k]
@@ -318,13 +351,14 @@ Definition simp_bits (g : graph) (weighted : Z) (r : wgraph) : Z :=
 
 Definition check_simplify : parser (list Z) :=
   do g <- p_graph; do weighted <- pZ; do ws <- plist_any p_Zs; do status <- pZ;
-  do rg <- p_graph; do rws <- plist_any p_Zs; do pure <- pZ;
+  do rg <- p_graph; do rws <- plist_any p_Zs; do pure <- pZ; do g' <- p_graph;
   pend (if negb (g_wfb g) then verdict V_MALFORMED 0 (-1) [6]
         else
           match (if weighted =? 0 then Some (unit_weights g) else zipwg g ws), zipwg rg rws with
           | Some wg, Some obs =>
               let r := simplify_multi wg in
-              let w := first_false [ status =? 0; (length obs =? length g)%nat; wgraph_eqb r obs; pure =? 1 ] in
+              let w := first_false [ status =? 0; (length obs =? length g)%nat; wgraph_eqb r obs; pure =? 1; graph_eqb g g';
+                                     negb (weighted =? 0) || (length ws =? 0)%nat ] in
               match w with
               | None => verdict V_OK (mk_tag 6 (simp_bits g weighted r)) (-1) []
               | Some k => verdict V_MISMATCH (mk_tag 6 (Z.lor (simp_bits g weighted r) 128)) k [6; k]
@@ -354,10 +388,10 @@ Fixpoint sg_eqb (s : subgraph) (obs : list sg_obs) : bool :=
   end.
 
 (* compare an expected result (None = panic) with the observation *)
-Definition sg_verdict (op : Z) (bits : Z) (expected : option subgraph) (status : Z) (obs : list sg_obs) (pure : Z) : list Z :=
+Definition sg_verdict (op : Z) (bits : Z) (expected : option subgraph) (status : Z) (obs : list sg_obs) (pure : Z) (args_same : bool) : list Z :=
   let w := match expected with
-           | None => first_false [ status =? 2; pure =? 1 ]
-           | Some s => first_false [ status =? 0; sg_eqb s obs; pure =? 1 ]
+           | None => first_false [ status =? 2; pure =? 1; args_same; (length obs =? 0)%nat ]
+           | Some s => first_false [ status =? 0; sg_eqb s obs; pure =? 1; args_same ]
            end in
   match w with
   | None => verdict V_OK (mk_tag op bits) (-1) []
@@ -369,6 +403,7 @@ Definition sg_verdict (op : Z) (bits : Z) (expected : option subgraph) (status :
    32 no node kept *)
 Definition check_keep : parser (list Z) :=
   do g <- p_graph; do nodes <- p_Zs; do eflat <- p_Zs; do status <- pZ; do obs <- plist_any p_sgobs; do pure <- pZ;
+  do g' <- p_graph; do nodes' <- p_Zs; do eflat' <- p_Zs;
   pend (if negb (g_wfb g) then verdict V_MALFORMED 0 (-1) [7]
         else match pairs_of eflat with
         | None => verdict V_MALFORMED 0 (-1) [7]
@@ -389,13 +424,14 @@ Definition check_keep : parser (list Z) :=
                             (Z.lor (if negb (no_dup_b (map (fun e => (fst e * 4194304 + snd e)%N) edgesN)) then 16 else 0)
                                    (if (length nodes =? 0)%nat then 32 else 64))))
                         end in
-            sg_verdict 7 bits expected status obs pure
+            sg_verdict 7 bits expected status obs pure (graph_eqb g g' && list_Z_eqb nodes nodes' && list_Z_eqb eflat eflat')
         end).
 
 (* branch bits (remove): 1 a node removed, 2 the call panics, 4 an edge removed by name, 8 an edge dropped
    because its target was removed, 16 nothing removed, 32 ids outside the graph among the arguments *)
 Definition check_remove : parser (list Z) :=
   do g <- p_graph; do nodes <- p_Zs; do eflat <- p_Zs; do status <- pZ; do obs <- plist_any p_sgobs; do pure <- pZ;
+  do g' <- p_graph; do nodes' <- p_Zs; do eflat' <- p_Zs;
   pend (if negb (g_wfb g) then verdict V_MALFORMED 0 (-1) [8]
         else match pairs_of eflat with
         | None => verdict V_MALFORMED 0 (-1) [8]
@@ -412,7 +448,7 @@ Definition check_remove : parser (list Z) :=
                             (Z.lor (if (length s =? length g)%nat && (kept_edges =? length (concat g))%nat then 16 else 0)
                                    (if existsb (fun x => (x <? 0) || (n <=? x)) nodes then 32 else 0))))
                         end in
-            sg_verdict 8 bits expected status obs pure
+            sg_verdict 8 bits expected status obs pure (graph_eqb g g' && list_Z_eqb nodes nodes' && list_Z_eqb eflat eflat')
         end).
 
 (* ------------------------------------------------------------------ op 9/10: Dot *)
@@ -454,7 +490,7 @@ Definition check_sprint : parser (list Z) :=
   do haslabel <- pZ; do labels <- plist_any p_Zs;
   do hasn <- pZ; do nattrs <- plist_any p_attrs;
   do hase <- pZ; do eattrs <- plist_any (plist_any p_attrs);
-  do status <- pZ; do obs <- p_Zs; do pure <- pZ;
+  do status <- pZ; do obs <- p_Zs; do pure <- pZ; do g' <- p_graph;
   pend (if negb (g_wfb g) then verdict V_MALFORMED 0 (-1) [10]
         else
           let d := mk_dot_opts (NsZ name)
@@ -471,13 +507,67 @@ Definition check_sprint : parser (list Z) :=
                      (Z.lor (if (0 <? length (concat g))%nat then 32 else 0)
                             (if (haslabel =? 0) && (hasn =? 0) && (hase =? 0) then 64 else 0)))))) in
           let w := match expected with
-                   | None => first_false [ status =? 2; pure =? 1 ]
-                   | Some b => first_false [ status =? 0; obytes_eqb expected obs; pure =? 1 ]
+                   | None => first_false [ status =? 2; pure =? 1; graph_eqb g g'; (length obs =? 0)%nat ]
+                   | Some b => first_false [ status =? 0; obytes_eqb expected obs; pure =? 1; graph_eqb g g' ]
                    end in
           match w with
           | None => verdict V_OK (mk_tag 10 bits) (-1) []
           | Some k => verdict V_MISMATCH (mk_tag 10 (Z.lor bits 128)) k [10; k]
           end).
+
+(* ------------------------------------------------------------------ op 11: a history of calls on one graph object *)
+Definition check_op (op : Z) : parser (list Z) :=
+  if op =? 2 then check_trav else if op =? 3 then check_scc else if op =? 4 then check_bigraph else if op =? 5 then check_equal
+  else if op =? 6 then check_simplify else if op =? 7 then check_keep else if op =? 8 then check_remove
+  else if op =? 10 then check_sprint else pfail.
+
+(* branch bits: 1 traversals, 2 SCC, 4 MakeBiGraph, 8 Equal / SimplifyMulti, 16 SubgraphKeep / SubgraphRemove, 32 Dot.Sprint,
+   64 more than one step *)
+Definition hist_bit (op : Z) : Z :=
+  if op =? 2 then 1 else if op =? 3 then 2 else if op =? 4 then 4 else if (op =? 5) || (op =? 6) then 8
+  else if (op =? 7) || (op =? 8) then 16 else 32.
+
+(* k steps "len op rest" left in l; g0 = the graph of the first step (None before it); fuel >= length l.
+   A step with verdict OK continues; the first other verdict ends the history: MALFORMED stays MALFORMED, a MISMATCH is
+   reported with the step index as position and "11 op <verdict of the step>" as diagnosis; diagnosis [11; op; 98] = the
+   graph printed before this step differs from the graph printed before the first step. *)
+Fixpoint hist_go (fuel : nat) (l : list Z) (k : Z) (g0 : option graph) (idx bits : Z) : list Z :=
+  match fuel with
+  | O => (if k <=? 0 then match l with [] => verdict V_OK (mk_tag 11 bits) (-1) [] | _ => verdict V_MALFORMED 0 (-1) [11] end
+          else verdict V_MALFORMED 0 (-1) [11])
+  | S f =>
+      if k <=? 0 then match l with [] => verdict V_OK (mk_tag 11 bits) (-1) [] | _ => verdict V_MALFORMED 0 (-1) [11] end
+      else
+        match l with
+        | len :: r =>
+            match (if len <? 1 then None else ptake r len []) with
+            | Some (op :: sub, rest) =>
+                match p_graph sub with
+                | Some (g, _) =>
+                    if match g0 with Some g1 => graph_eqb g1 g | None => true end then
+                      match check_op op sub with
+                      | Some (c :: v, _) =>
+                          if c =? V_OK then
+                            hist_go f rest (k - 1) (Some (match g0 with Some g1 => g1 | None => g end)) (idx + 1)
+                                    (Z.lor (Z.lor bits (hist_bit op)) (if 0 <? idx then 64 else 0))
+                          else if c =? V_MISMATCH then verdict V_MISMATCH (mk_tag 11 (Z.lor bits 128)) idx (11 :: op :: c :: v)
+                          else verdict V_MALFORMED 0 (-1) [11; op]
+                      | _ => verdict V_MALFORMED 0 (-1) [11; op]
+                      end
+                    else verdict V_MISMATCH (mk_tag 11 (Z.lor bits 128)) idx [11; op; 98]
+                | None => verdict V_MALFORMED 0 (-1) [11; op]
+                end
+            | _ => verdict V_MALFORMED 0 (-1) [11]
+            end
+        | [] => verdict V_MALFORMED 0 (-1) [11]
+        end
+  end.
+
+Definition check_hist : parser (list Z) := fun l =>
+  match l with
+  | k :: r => if k <? 1 then None else Some (hist_go (length r) r k None 0 0, [])
+  | [] => None
+  end.
 
 (* ------------------------------------------------------------------ dispatch *)
 Definition check_C18 (line : list Z) : list Z :=
@@ -485,7 +575,7 @@ Definition check_C18 (line : list Z) : list Z :=
   | 18 :: op :: rest =>
       let p := if op =? 1 then check_marks else if op =? 2 then check_trav else if op =? 3 then check_scc else if op =? 4 then check_bigraph else if op =? 5 then check_equal
                else if op =? 6 then check_simplify else if op =? 7 then check_keep else if op =? 8 then check_remove
-               else if op =? 9 then check_dotstring else if op =? 10 then check_sprint else pfail in
+               else if op =? 9 then check_dotstring else if op =? 10 then check_sprint else if op =? 11 then check_hist else pfail in
       match p rest with
       | Some (v, _) => v
       | None => verdict V_MALFORMED 0 (-1) [op]
